@@ -34,6 +34,14 @@ Proof.
     + subst acc. pose proof (pow2_pos (wa + k) ltac:(lia)). nia.
 Qed.
 
+(* the OR-accumulation may start from the value itself or from 0 and be merged afterwards: both are v | E *)
+Lemma fold_lor_acc (g : Z -> Z) (l : list Z) acc :
+  fold_left (fun a i => Z.lor a (g i)) l acc = Z.lor acc (fold_left (fun a i => Z.lor a (g i)) l 0).
+Proof.
+  revert acc. induction l as [|x l IH]; intros acc; cbn [fold_left]; [rewrite Z.lor_0_r; reflexivity|].
+  rewrite IH, (IH (Z.lor 0 (g x))). rewrite Z.lor_0_l, Z.lor_assoc. reflexivity.
+Qed.
+
 Section Sound2.
 Variable env : list Z.
 Notation val n := (getv env (fst n)).
@@ -70,15 +78,22 @@ Proof.
   2: lia. 2: { rewrite Hrep. pose proof (pow2_pos (wr - wa) ltac:(lia)). nia. }
   rewrite (vtrunc_small wa v) by lia.
   rewrite lor_add_disjoint by lia.
-  (* simulator side *)
+  (* simulator side: normalise `fold from v` / `(fold from 0) | v` to  v | E  with E the accumulated extension *)
   unfold SignExtend_propagate, py_shr. cbv zeta. fold wa wr v. rewrite <- Hhbv.
   unfold seqZ.
-  pose proof (sext_fold hb v wa Hhb ltac:(lia) Hva (seq 0 (Z.to_nat (wr - wa))) v 0 ltac:(lia)) as Hs.
+  try rewrite (fold_lor_acc (fun i => py_shl hb i) _ v).
+  rewrite ?(Z.lor_comm _ v).
+  pose proof (sext_fold hb 0 wa Hhb ltac:(lia) ltac:(split; [lia | apply pow2_pos; lia]) (seq 0 (Z.to_nat (wr - wa))) 0 0 ltac:(lia)) as Hs.
   rewrite seq_length in Hs. rewrite Z2Nat.id in Hs by lia.
   rewrite (map_ext (fun k => wa + Z.of_nat k) (fun j => wa + 0 + Z.of_nat j)) by (intros; lia).
   rewrite Hs by (rewrite Z.add_0_r; lia).
-  rewrite put_trunc. replace (wa + 0 + (wr - wa)) with wr by lia.
-  rewrite !vtrunc_trunc by lia. rewrite trunc_idem by lia. f_equal.
+  replace (wa + 0 + (wr - wa)) with wr by lia. rewrite Z.add_0_l.
+  (* v | hb*(2^wr - 2^wa): disjoint bits, so it is a sum *)
+  assert (Hdis : Z.lor v (hb * (2 ^ wr - 2 ^ wa)) = v + hb * (2 ^ wr - 2 ^ wa)).
+  { replace (hb * (2 ^ wr - 2 ^ wa)) with (Z.shiftl (hb * (2 ^ (wr - wa) - 1)) wa).
+    - rewrite lor_shift_add by lia. rewrite Z.shiftl_mul_pow2 by lia. reflexivity.
+    - rewrite Z.shiftl_mul_pow2 by lia. replace wr with ((wr - wa) + wa) at 2 by lia. rewrite Z.pow_add_r by lia. ring. }
+  rewrite Hdis. rewrite put_trunc. rewrite !vtrunc_trunc by lia. rewrite trunc_idem by lia. f_equal.
   replace wr with ((wr - wa) + wa) at 2 by lia. rewrite Z.pow_add_r by lia. nia.
 Qed.
 End Sound2.
